@@ -295,6 +295,27 @@ pub fn check(id: &str, tier: Tier) -> i32 {
     bounds.push(json!({"kind": "recycling thread against one walker", "threads": 2, "preemption_bound": bound, "shapes": shapes, "long": long.iter().map(|p| progs_str(&[p.clone()])).collect::<Vec<_>>(), "single": single.iter().map(|p| progs_str(&[p.clone()])).collect::<Vec<_>>(), "harnesses": count}));
   }
   if id != "C13" {
+    // blocks at odd offsets and no fresh space: a released 40-byte block offers 27 data bytes behind its padding and
+    // node word; requests between that and what a mis-counted segment would offer (28..=32), next to a thread that
+    // owns the neighbouring block and gives it back (its last look at its bytes races with whatever the arena does
+    // to them)
+    use TOp::*;
+    let takers: Vec<Vec<TOp>> = vec![vec![B(32)], vec![B(29), DropOwn], vec![B(24)], vec![U64, B(30)]];
+    let owners: Vec<Vec<TOp>> = vec![vec![DropPre(0)], vec![DropPre(0), B(16)], vec![B(16)], vec![DropPre(1)]];
+    let mut count = 0;
+    for fl in [Fl::Optimistic, Fl::Pessimistic] {
+      for (odd, shape) in [(3u8, 1u8), (5, 3), (1, 1)] {
+        for t in &takers {
+          for o in &owners {
+            items.push((Harness { fl, unify: true, min_seg: 8, cap: 256, shape, progs: vec![o.clone(), t.clone()], own_arenas: false, leave: 0, odd, reserved: 0 }, if thorough { 4 } else { 3 }));
+            count += 1;
+          }
+        }
+      }
+    }
+    bounds.push(json!({"kind": "blocks at odd offsets, no fresh space: requests around the true data size of a released block, next to the owner of the neighbouring block", "threads": 2, "preemption_bound": if thorough { 4 } else { 3 }, "harnesses": count}));
+  }
+  if id != "C13" {
     // regression harnesses: the programs on which the thorough tier found the stale-traversal defect
     // (S13, 3 threads / 3 preemptions), kept in every tier at the bound that exposes them
     use TOp::*;
@@ -366,6 +387,11 @@ pub fn check(id: &str, tier: Tier) -> i32 {
       return 2;
     }
   }
+  if std::env::var("VERIF_POR_ONLY").is_ok() {
+    // (debugging knob: only the pass without a preemption bound)
+    items.clear();
+    witems.clear();
+  }
   let execs = AtomicU64::new(0);
   let events = AtomicU64::new(0);
   let capped = AtomicU64::new(0);
@@ -376,7 +402,7 @@ pub fn check(id: &str, tier: Tier) -> i32 {
     if run.stopped() {
       return;
     }
-    let xc = ExploreCfg { bound: *bound, hb: true, drain: id == "C02" || id == "C07", prop_of, max_execs, cache: false, stale: *stale, spur };
+    let xc = ExploreCfg { bound: *bound, hb: true, drain: id == "C02" || id == "C07", prop_of, max_execs, cache: false, stale: *stale, spur, por: false };
     let st = explore(&run, h, &xc, id);
     execs.fetch_add(st.execs, Ordering::Relaxed);
     wexecs.fetch_add(st.execs, Ordering::Relaxed);
@@ -386,11 +412,56 @@ pub fn check(id: &str, tier: Tier) -> i32 {
     }
   });
   run.set("non_sc_executions", json!(wexecs.load(Ordering::Relaxed)));
+  // ---- pairs without a preemption bound: every interleaving of the two programs up to the commutation of
+  // independent actions (sleep sets, sched.rs); complete for the harness unless the per-harness cap is hit
+  if id != "C13" {
+    let pmenu: Vec<P> = if id == "C07" {
+      if thorough { vec![P::B16, P::B24, P::U64, P::AB8, P::B16D, P::U64D, P::Dp, P::Disc, P::DpB16, P::B16B16, P::DiscB16] } else { vec![P::B16, P::B24, P::U64, P::B16D, P::U64D, P::Dp, P::Disc] }
+    } else if thorough {
+      vec![P::B16, P::B24, P::U64, P::AB8, P::B16D, P::U64D, P::Dp, P::DpB16, P::B16B16, P::B24D, P::AB8D]
+    } else {
+      vec![P::B16, P::B24, P::U64, P::AB8, P::B16D, P::U64D, P::Dp]
+    };
+    let mut pitems: Vec<Harness> = vec![];
+    let shapes: Vec<(u8, u32, u8)> = if thorough { vec![(3, 0, 0), (11, 0, 0), (19, 0, 0), (1, 0, 0), (3, 48, 3)] } else { vec![(3, 0, 0), (3, 48, 3)] };
+    for fl in [Fl::Optimistic, Fl::Pessimistic] {
+      for (shape, leave, odd) in &shapes {
+        for tu in tuples(&pmenu, 2) {
+          let progs: Vec<Vec<TOp>> = tu.iter().enumerate().map(|(t, p)| prog(*p, t)).collect();
+          pitems.push(Harness { fl, unify: true, min_seg: 8, cap: 256, shape: *shape, progs, own_arenas: false, leave: *leave, odd: *odd, reserved: 0 });
+        }
+      }
+    }
+    // the longest programs first (they take longest: better balance over the workers)
+    pitems.sort_by_key(|h| std::cmp::Reverse(h.progs.iter().map(|p| p.len()).sum::<usize>()));
+    let pexecs = AtomicU64::new(0);
+    let pblocked = AtomicU64::new(0);
+    let pcapped = AtomicU64::new(0);
+    let pmax = if thorough { 40_000_000 } else { 1_500_000 };
+    par_for_each(&pitems, |_, h| {
+      if run.stopped() {
+        return;
+      }
+      let xc = ExploreCfg { bound: 255, hb, drain: id == "C02" || id == "C07", prop_of, max_execs: pmax, cache: false, stale: 0, spur: 0, por: true };
+      let st = explore(&run, h, &xc, id);
+      execs.fetch_add(st.execs, Ordering::Relaxed);
+      pexecs.fetch_add(st.execs, Ordering::Relaxed);
+      pblocked.fetch_add(st.blocked, Ordering::Relaxed);
+      events.fetch_add(st.events, Ordering::Relaxed);
+      if st.capped {
+        pcapped.fetch_add(1, Ordering::Relaxed);
+      }
+    });
+    bounds.push(json!({"kind": "pairs without a preemption bound (sleep-set reduction): all interleavings up to commutation of independent actions", "harnesses": pitems.len(), "menu": format!("{:?}", pmenu), "shapes(shape,leave,odd)": shapes, "executions": pexecs.load(Ordering::Relaxed), "of_which_redundant(sleep-set blocked)": pblocked.load(Ordering::Relaxed), "harnesses_stopped_at_the_cap": pcapped.load(Ordering::Relaxed), "cap_per_harness": pmax}));
+    if pcapped.load(Ordering::Relaxed) > 0 {
+      capped.fetch_add(pcapped.load(Ordering::Relaxed), Ordering::Relaxed);
+    }
+  }
   par_for_each(&items, |_, (h, bound)| {
     if run.stopped() {
       return;
     }
-    let xc = ExploreCfg { bound: *bound, hb, drain: id == "C02" || id == "C07", prop_of, max_execs, cache: false, stale: 0, spur };
+    let xc = ExploreCfg { bound: *bound, hb, drain: id == "C02" || id == "C07", prop_of, max_execs, cache: false, stale: 0, spur, por: false };
     let st = explore(&run, h, &xc, id);
     execs.fetch_add(st.execs, Ordering::Relaxed);
     events.fetch_add(st.events, Ordering::Relaxed);
@@ -431,10 +502,54 @@ pub fn calib() -> i32 {
       }
       let h = Harness { fl: Fl::Optimistic, unify: true, min_seg: 8, cap: 256, shape: 3, progs: progs.clone(), own_arenas: false, leave: 0, odd: 0, reserved: 0 };
       let t0 = std::time::Instant::now();
-      let xc = ExploreCfg { bound, hb: false, drain: true, prop_of: prop_c02, max_execs: 50_000_000, cache: std::env::var("CALIB_CACHE").is_ok(), stale: 0, spur: 0 };
+      let xc = ExploreCfg { bound, hb: false, drain: true, prop_of: prop_c02, max_execs: 50_000_000, cache: std::env::var("CALIB_CACHE").is_ok(), stale: 0, spur: 0, por: false };
       let st = explore(&run, &h, &xc, "calib");
       println!("{:24} bound {:3}: {:>10} schedules {:>12} events {:.2}s max_choice_points {} states {} pruned {}", name, bound, st.execs, st.events, t0.elapsed().as_secs_f64(), st.max_choices, st.states, st.pruned);
       if t0.elapsed().as_secs_f64() > 60.0 {
+        break;
+      }
+    }
+  }
+  0
+}
+
+/// calibration / self-test of the sleep-set reduction: the set of outcomes (final memory, per-thread observations)
+/// of the reduced exploration must contain that of the plain exploration at every preemption bound
+pub fn calibp() -> i32 {
+  let run = Run::new("CALIBP", Tier::Quick, "model_checking");
+  use TOp::*;
+  let maxb: u8 = std::env::var("CALIB_BOUND").ok().and_then(|s| s.parse().ok()).unwrap_or(4);
+  for (name, fl, shape, leave, progs) in [
+    ("U64 || U64 fresh", Fl::Optimistic, 3u8, 48u32, vec![vec![U64], vec![U64]]),
+    ("B16 || U64,D fresh", Fl::Optimistic, 3, 48, vec![vec![B(16)], vec![U64, DropOwn]]),
+    ("B16 || Dp", Fl::Optimistic, 1, 0, vec![vec![B(16)], vec![DropPre(1)]]),
+    ("B16 || B16", Fl::Optimistic, 3, 0, vec![vec![B(16)], vec![B(16)]]),
+    ("B16 || B16,D", Fl::Optimistic, 3, 0, vec![prog(P::B16, 0), prog(P::B16D, 1)]),
+    ("B16 || B16,D pess", Fl::Pessimistic, 11, 0, vec![prog(P::B16, 0), prog(P::B16D, 1)]),
+    ("B16,B16 || Dp,B16", Fl::Optimistic, 3, 0, vec![prog(P::B16B16, 1), prog(P::DpB16, 0)]),
+    ("Disc || B16,D", Fl::Optimistic, 3, 0, vec![vec![Discard], vec![B(16), DropOwn]]),
+    ("B16 || B16 || Dp", Fl::Optimistic, 3, 0, vec![prog(P::B16, 1), prog(P::B16, 2), prog(P::Dp, 0)]),
+  ] {
+    let h = Harness { fl, unify: true, min_seg: 8, cap: 256, shape, progs: progs.clone(), own_arenas: false, leave, odd: 0, reserved: 0 };
+    let collect = |bound: u8, por: bool| {
+      PRECISE_PARK.with(|p| p.set(true));
+      OUTCOMES.with(|o| *o.borrow_mut() = Some(Default::default()));
+      let t0 = std::time::Instant::now();
+      let xc = ExploreCfg { bound, hb: false, drain: false, prop_of: prop_c02, max_execs: 5_000_000, cache: false, stale: 0, spur: 0, por };
+      let st = explore(&run, &h, &xc, "calibp");
+      let set = OUTCOMES.with(|o| o.borrow_mut().take().unwrap());
+      (st, set, t0.elapsed().as_secs_f64())
+    };
+    let (sp, setp, tp) = collect(255, true);
+    println!("{:24} sleep sets: {:>10} executions ({} redundant) {:>12} events {:.2}s outcomes {} capped {}", name, sp.execs, sp.blocked, sp.events, tp, setp.len(), sp.capped);
+    for bound in 0..=maxb {
+      let (sb, setb, tb) = collect(bound, false);
+      let missing = setb.difference(&setp).count();
+      println!("{:24}   bound {:3}: {:>10} schedules {:.2}s outcomes {} not-in-reduced {}{}", name, bound, sb.execs, tb, setb.len(), missing, if sb.capped { " (capped)" } else { "" });
+      if missing > 0 {
+        println!("  !! the reduced exploration misses outcomes");
+      }
+      if tb > 120.0 {
         break;
       }
     }
@@ -463,7 +578,7 @@ pub fn calibw() -> i32 {
     for (bound, stale, spur) in [(2u8, 0u8, 0u8), (2, 1, 0), (2, 2, 0), (3, 1, 0), (2, 0, 1), (2, 0, 2), (2, 1, 1), (3, 2, 1)] {
       let h = Harness { fl, unify: true, min_seg: 8, cap: 256, shape, progs: progs.clone(), own_arenas: false, leave, odd: 0, reserved: 0 };
       let t0 = std::time::Instant::now();
-      let xc = ExploreCfg { bound, hb: true, drain: true, prop_of: prop_any, max_execs: 20_000_000, cache: false, stale, spur };
+      let xc = ExploreCfg { bound, hb: true, drain: true, prop_of: prop_any, max_execs: 20_000_000, cache: false, stale, spur, por: false };
       let st = explore(&run, &h, &xc, "calibw");
       println!("{:24} bound {} stale {} spur {}: {:>10} schedules {:>12} events {:.2}s max_choice_points {}", name, bound, stale, spur, st.execs, st.events, t0.elapsed().as_secs_f64(), st.max_choices);
       if t0.elapsed().as_secs_f64() > 60.0 {
@@ -507,7 +622,7 @@ pub fn c03_concurrent(run: &Run, thorough: bool) {
   let execs = AtomicU64::new(0);
   let events = AtomicU64::new(0);
   par_for_each(&items, |_, (h, bound)| {
-    let xc = ExploreCfg { bound: *bound, hb: false, drain: false, prop_of: prop_c03, max_execs: 5_000_000, cache: false, stale: 0, spur: if thorough { 2 } else { 1 } };
+    let xc = ExploreCfg { bound: *bound, hb: false, drain: false, prop_of: prop_c03, max_execs: 5_000_000, cache: false, stale: 0, spur: if thorough { 2 } else { 1 }, por: false };
     let st = explore(run, h, &xc, "C03");
     execs.fetch_add(st.execs, Ordering::Relaxed);
     events.fetch_add(st.events, Ordering::Relaxed);
@@ -548,7 +663,7 @@ pub fn c04_concurrent(run: &Run, thorough: bool) {
   let execs = AtomicU64::new(0);
   let events = AtomicU64::new(0);
   par_for_each(&items, |_, (h, bound)| {
-    let xc = ExploreCfg { bound: *bound, hb: false, drain: false, prop_of: prop_c04, max_execs: 5_000_000, cache: false, stale: 0, spur: if thorough { 2 } else { 1 } };
+    let xc = ExploreCfg { bound: *bound, hb: false, drain: false, prop_of: prop_c04, max_execs: 5_000_000, cache: false, stale: 0, spur: if thorough { 2 } else { 1 }, por: false };
     let st = explore(run, h, &xc, "C04");
     execs.fetch_add(st.execs, Ordering::Relaxed);
     events.fetch_add(st.events, Ordering::Relaxed);
@@ -604,7 +719,7 @@ pub fn c15_concurrent(run: &Run, thorough: bool) {
   let execs = AtomicU64::new(0);
   let events = AtomicU64::new(0);
   par_for_each(&items, |_, (h, bound)| {
-    let xc = ExploreCfg { bound: *bound, hb: false, drain: false, prop_of: prop_c15, max_execs: 5_000_000, cache: false, stale: 0, spur: if thorough { 2 } else { 1 } };
+    let xc = ExploreCfg { bound: *bound, hb: false, drain: false, prop_of: prop_c15, max_execs: 5_000_000, cache: false, stale: 0, spur: if thorough { 2 } else { 1 }, por: false };
     let st = explore(run, h, &xc, "C15");
     execs.fetch_add(st.execs, Ordering::Relaxed);
     events.fetch_add(st.events, Ordering::Relaxed);
@@ -625,11 +740,12 @@ fn prop_c08(class: &str) -> Option<&'static str> {
 pub fn c08_concurrent(run: &Run, thorough: bool) {
   use TOp::*;
   // (B(30): more than the 27 data bytes of a 40-byte block released at an odd offset, less than the 32 an unpadded count gives)
-  let menu: Vec<Vec<TOp>> = vec![vec![B(16)], vec![B(16), DropOwn], vec![B(24)], vec![BO(16), DropOwn], vec![B(16), DropOwn, B(16)], vec![DropPre(1)], vec![B(8), B(8)], vec![B(30)], vec![B(16), DropOwn, B(24)]];
+  let menu: Vec<Vec<TOp>> = vec![vec![B(16)], vec![B(16), DropOwn], vec![B(24)], vec![BO(16), DropOwn], vec![B(16), DropOwn, B(16)], vec![DropPre(1)], vec![B(8), B(8)], vec![B(30)], vec![B(16), DropOwn, B(24)], vec![U64], vec![T16], vec![B(5), B(16)]];
   let mut items = vec![];
   for fl in [Fl::Optimistic, Fl::Pessimistic, Fl::None] {
-    // (fresh bytes left, cursor residue, free-list shape)
-    for (leave, odd, shape) in [(16u32, 0u8, 0u8), (24, 0, 1), (16, 3, 3), (0, 0, 3)] {
+    // (fresh bytes left, cursor residue, free-list shape); the last one: room for a typed value next to byte buffers
+    // of odd sizes (a value that sticks out of its block shares bytes with the next buffer)
+    for (leave, odd, shape) in [(16u32, 0u8, 0u8), (24, 0, 1), (16, 3, 3), (0, 0, 3), (56, 0, 0)] {
       if fl == Fl::None && shape != 0 {
         continue;
       }
@@ -646,7 +762,7 @@ pub fn c08_concurrent(run: &Run, thorough: bool) {
   let execs = AtomicU64::new(0);
   let events = AtomicU64::new(0);
   par_for_each(&items, |_, (h, bound)| {
-    let xc = ExploreCfg { bound: *bound, hb: false, drain: false, prop_of: prop_c08, max_execs: 5_000_000, cache: false, stale: 0, spur: if thorough { 2 } else { 1 } };
+    let xc = ExploreCfg { bound: *bound, hb: false, drain: false, prop_of: prop_c08, max_execs: 5_000_000, cache: false, stale: 0, spur: if thorough { 2 } else { 1 }, por: false };
     let st = explore(run, h, &xc, "C08");
     execs.fetch_add(st.execs, Ordering::Relaxed);
     events.fetch_add(st.events, Ordering::Relaxed);
